@@ -432,3 +432,104 @@ func (in *Instance) Describe() map[string]any {
 		"located_way_nodes_version":         map[bool]int{true: 0, false: 1}[in.NodeV0],
 	}
 }
+
+// HistoryPre is History with Member.Orientation preset: pre[i] is put on the member of
+// Pieces[i] (0 = not annotated). It models re-annotating an annotated relation, stale
+// annotations and partially annotated members.
+func (in *Instance) HistoryPre(pre []orb.Orientation) (*osm.Relation, *osm.HistoryDatasource) {
+	rel, ds := in.History()
+	byRef := map[int64]orb.Orientation{}
+	for i := range in.Pieces {
+		byRef[int64(in.Pieces[i].ID)] = pre[i]
+	}
+	for i := range rel.Members {
+		if rel.Members[i].Type == osm.TypeWay {
+			rel.Members[i].Orientation = byRef[rel.Members[i].Ref]
+		}
+	}
+	return rel, ds
+}
+
+// Degrade takes the input out of the property's domain (rings no longer fully located, or a
+// member that is no piece of any ring). Such inputs are only run, never judged.
+type Degrade struct {
+	// Unlocated[piece] lists positions of the way's node list that carry no location
+	Unlocated map[int][]int
+	// EmptyWay adds a member way without any node at member position EmptyAt
+	EmptyWay  bool
+	EmptyRole string
+	EmptyAt   int
+	EmptyID   osm.WayID
+}
+
+func (in *Instance) degradeWay(w *osm.Way, pieceIdx int, d Degrade) map[osm.NodeID]bool {
+	gone := map[osm.NodeID]bool{}
+	for _, pos := range d.Unlocated[pieceIdx] {
+		if pos < len(w.Nodes) {
+			gone[w.Nodes[pos].ID] = true
+			w.Nodes[pos] = osm.WayNode{ID: w.Nodes[pos].ID}
+		}
+	}
+	return gone
+}
+
+func (in *Instance) degradeMembers(ms osm.Members, d Degrade) osm.Members {
+	if !d.EmptyWay {
+		return ms
+	}
+	at := d.EmptyAt
+	if at > len(ms) {
+		at = len(ms)
+	}
+	out := append(osm.Members(nil), ms[:at]...)
+	out = append(out, osm.Member{Type: osm.TypeWay, Ref: int64(d.EmptyID), Role: d.EmptyRole})
+	return append(out, ms[at:]...)
+}
+
+// DegradedOSM is OSM(onWayNodes,false) with the degradation applied: an unlocated node has no
+// coordinates on the way node and (in the node-object shape) no node object either.
+func (in *Instance) DegradedOSM(onWayNodes bool, d Degrade) *osm.OSM {
+	o := in.OSM(onWayNodes, false)
+	gone := map[osm.NodeID]bool{}
+	for k, pi := range in.WayOrder {
+		for id := range in.degradeWay(o.Ways[k], pi, d) {
+			gone[id] = true
+		}
+	}
+	var keep osm.Nodes
+	for _, n := range o.Nodes {
+		if !gone[n.ID] {
+			keep = append(keep, n)
+		}
+	}
+	o.Nodes = keep
+	if d.EmptyWay {
+		o.Ways = append(o.Ways, &osm.Way{ID: d.EmptyID, Version: 1, Visible: true, ChangesetID: 7, Timestamp: tChild})
+	}
+	o.Relations[0].Members = in.degradeMembers(o.Relations[0].Members, d)
+	return o
+}
+
+// DegradedHistory is History with the degradation applied.
+func (in *Instance) DegradedHistory(d Degrade) (*osm.Relation, *osm.HistoryDatasource) {
+	rel, ds := in.History()
+	for i := range in.Pieces {
+		in.degradeWay(ds.Ways[in.Pieces[i].ID][0], i, d)
+	}
+	if d.EmptyWay {
+		ds.Ways[d.EmptyID] = osm.Ways{&osm.Way{ID: d.EmptyID, Version: 1, Visible: true, ChangesetID: 7, Timestamp: tChild}}
+	}
+	rel.Members = in.degradeMembers(rel.Members, d)
+	return rel, ds
+}
+
+// FreeWayID returns a way id not used by any piece.
+func (in *Instance) FreeWayID() osm.WayID {
+	max := osm.WayID(0)
+	for i := range in.Pieces {
+		if in.Pieces[i].ID > max {
+			max = in.Pieces[i].ID
+		}
+	}
+	return max + 1
+}
